@@ -1566,3 +1566,120 @@ func ruleDeriveSnapshot(c *Ctx, r *Reporter) {
 		r.bad(key, c.posStr(instrPos(initCall)), "the input table's initialization is read from another snapshot than the one whose changes were consumed (or marked in another transaction): a producer that commits its last objects together with its initialization between the two is seen as initialized while those objects have not been derived - the output table is reported initialized too early")
 	}
 }
+
+func init() {
+	register(&Rule{
+		ID: "KEY-OWNER", Props: []string{"C08", "C03", "C04"}, Floor: 2,
+		Doc: "writeTxnState.delete stores the deleted object (graveyard, or back into the primary index when a CompareAndDelete is rejected) under a key computed from the stored object, never under the key bytes of the caller's lookup object: the radix tree keeps key slices without copying them and only inserted objects are immutable",
+		Run: ruleKeyOwner,
+	})
+	register(&Rule{
+		ID: "REFLECT-KIND", Props: []string{"C03"}, Floor: 1,
+		Doc: "reflect.Value.UnsafePointer/Pointer is called only on a value whose Kind() was tested to be a pointer on the same path (an interface-typed table can hold struct values)",
+		Run: ruleReflectKind,
+	})
+}
+
+func ruleKeyOwner(c *Ctx, r *Reporter) {
+	fn := c.Func("statedb", "writeTxnState", "delete")
+	if fn == nil {
+		r.anchorMissing("statedb.(writeTxnState).delete")
+		return
+	}
+	// the primary delete whose result is the stored object
+	var stored ssa.Value
+	for _, ia := range allInstrs(fn) {
+		if ex, ok := ia.In.(*ssa.Extract); ok && ex.Index == 0 {
+			if call, ok := ex.Tuple.(*ssa.Call); ok && call.Call.IsInvoke() && call.Call.Method.Name() == "delete" && stored == nil {
+				stored = ex
+			}
+		}
+	}
+	if stored == nil {
+		r.undecided("statedb.(writeTxnState).delete|keys", c.posStr(fn.Pos()), "could not find the primary index delete")
+		return
+	}
+	fromStored := func(v ssa.Value) bool {
+		if v == stored {
+			return true
+		}
+		if a, ok := isLoad(v); ok {
+			if al, ok := a.(*ssa.Alloc); ok {
+				sts := storesTo(fn, al)
+				return len(sts) == 1 && sts[0].Val == stored
+			}
+		}
+		return false
+	}
+	n := 0
+	for _, ia := range allInstrs(fn) {
+		call, ok := ia.In.(*ssa.Call)
+		if !ok || !call.Call.IsInvoke() || call.Call.Method.Name() != "insert" || len(call.Call.Args) < 2 {
+			continue
+		}
+		// the object inserted is the stored one (not the revision-keyed graveyard entry's key)
+		n++
+		key := call.Call.Args[0]
+		good := false
+		what := "a key of unknown origin"
+		if kc, ok := key.(*ssa.Call); ok {
+			switch {
+			case kc.Call.IsInvoke() && kc.Call.Method.Name() == "objectToKey" && len(kc.Call.Args) == 1:
+				if fromStored(kc.Call.Args[0]) {
+					good = true
+				} else {
+					what = "the key computed from the caller's lookup object"
+				}
+			case strings.HasPrefix(c.calleeName(kc), "index.Uint64"):
+				good = true // fresh key built from a revision
+			}
+		}
+		r.check(good, fmt.Sprintf("statedb.(writeTxnState).delete|insert#%d key comes from the stored object", n), c.posStr(instrPos(call)), "the key is objectToKey(stored object) or a freshly encoded revision", "the deleted object is stored under "+what+": its bytes belong to the caller, who may reuse the buffer - the graveyard (or, after a rejected CompareAndDelete, the primary index) is corrupted, objects are never collected or the next delete through the same buffer panics with 'Double deletion'")
+	}
+	if n < 2 {
+		r.undecided("statedb.(writeTxnState).delete|keys", c.posStr(fn.Pos()), fmt.Sprintf("expected at least 2 index inserts in delete, found %d", n))
+	}
+}
+
+func ruleReflectKind(c *Ctx, r *Reporter) {
+	n := 0
+	for _, fn := range c.Funcs {
+		if fn.Package() == nil {
+			continue
+		}
+		pk := shortPkg(fn.Package().Pkg.Path())
+		if pk != "statedb" && pk != "part" && pk != "lpm" && pk != "index" {
+			continue
+		}
+		ord := 0
+		for _, ia := range allInstrs(fn) {
+			call, ok := ia.In.(*ssa.Call)
+			if !ok {
+				continue
+			}
+			cn := c.calleeName(call)
+			if cn != "reflect.(Value).UnsafePointer" && cn != "reflect.(Value).Pointer" {
+				continue
+			}
+			n++
+			ord++
+			v := call.Call.Args[0]
+			tested := false
+			for _, f := range factsAt(call.Block()) {
+				bo, ok := f.Cond.(*ssa.BinOp)
+				if !ok || bo.Op != token.EQL || !f.Val {
+					continue
+				}
+				for _, op := range []ssa.Value{bo.X, bo.Y} {
+					if kc, ok := op.(*ssa.Call); ok && c.calleeName(kc) == "reflect.(Value).Kind" && kc.Call.Args[0] == v {
+						tested = true
+					}
+				}
+			}
+			r.check(tested, fmt.Sprintf("%s|reflect pointer access#%d under a Kind test", c.fnName(fn), ord), c.posStr(instrPos(call)), "the value's Kind() was compared with reflect.Pointer on this path", "reflect.Value.UnsafePointer is called on a value whose kind was not tested: with an interface-typed table the object can be a struct value and the call panics - after the index and the revision were already changed")
+		}
+	}
+	if n == 0 {
+		r.anchorMissing("reflect.Value.UnsafePointer in the write path")
+	}
+}
